@@ -14,10 +14,10 @@ import (
 )
 
 type clCtx struct {
-	fset *token.FileSet
-	recv string
-	arg  string // the method's parameter (e / m / chunk / conn, b)
-	namedErr bool // the function's result is the named `err`
+	fset     *token.FileSet
+	recv     string
+	arg      string // the method's parameter (e / m / chunk / conn, b)
+	namedErr bool   // the function's result is the named `err`
 }
 
 func (c *clCtx) src(n ast.Node) string {
